@@ -219,7 +219,7 @@ def main(argv):
     if ck.replay:
         ck.correspond(hb, db, [read_replay(ck.replay)], label="trie", nontrivial=nontrivial, ubsan_is_violation=r"trie\.(cpp|tpp|hpp)")
     else:
-        n = 800 if ck.tier == "quick" else 40000
+        n = 700 if ck.tier == "quick" else 40000
         hs = CORPUS + [gen_history(ck.rng) for _ in range(n)]
         ck.correspond(hb, db, hs, label="trie", nontrivial=nontrivial, timeout=1800, ubsan_is_violation=r"trie\.(cpp|tpp|hpp)")
         depth = 3 if ck.tier == "quick" else 4
@@ -228,7 +228,7 @@ def main(argv):
             if d == depth and ck.tier == "quick":
                 # the deepest level is sampled in the quick tier, complete in the thorough tier
                 allh = list(exhaustive(d, 0)) + list(exhaustive(d, 1))
-                ex += ck.rng.sample(allh, 1500)
+                ex += ck.rng.sample(allh, 1000)
             else:
                 ex += list(exhaustive(d, 0)) + list(exhaustive(d, 1))
         ck.cov["counters"]["exhaustive_depth"] = depth
